@@ -273,6 +273,29 @@ pub fn check_case(focus: &str, case: &CoverCase, col: &Collector) -> CheckResult
     }
     let spec = &spec;
     let view = view_of(spec);
+    // a second authority served by the same instance: the same names, but every attribute id
+    // shifted (one more dimension declared first). In two cases out of three each key generation
+    // and each encapsulation is preceded by the same call for that authority: nothing the instance
+    // remembers from it may leak into the call that is judged.
+    let shadow = if spec.dims.len() % 3 != 0 || case.users.len() % 2 == 0 {
+        let mk = || -> Result<(MasterSecretKey, MasterPublicKey), Error> {
+            let (mut m2, _) = cc.setup()?;
+            m2.access_structure.add_anarchy("ZZ-other-authority".into())?;
+            m2.access_structure.add_attribute(qa("ZZ-other-authority", "z"), hint(false), None)?;
+            spec.build(&mut m2.access_structure)?;
+            let p2 = cc.update_msk(&mut m2)?;
+            Ok((m2, p2))
+        };
+        let s = mk().map_err(|e| Fail::new("second-authority-failed", short_err(&e)))?;
+        col.class("cases-with-a-second-authority-on-the-instance");
+        Some(s)
+    } else {
+        None
+    };
+    let (mut shadow_msk, shadow_mpk) = match shadow {
+        Some((a, b)) => (Some(a), Some(b)),
+        None => (None, None),
+    };
     let mut users: Vec<(RPolicy, Vec<Conj>, UserSecretKey)> = vec![];
     for ps in &case.users {
         let rp = ps.resolve(&view);
@@ -283,6 +306,9 @@ pub fn check_case(focus: &str, case: &CoverCase, col: &Collector) -> CheckResult
         }
         if rp.has_stars() {
             col.class("policy:user-with-star-operand");
+        }
+        if let Some(m2) = shadow_msk.as_mut() {
+            let _ = cc.generate_user_secret_key(m2, &pol);
         }
         let usk = cc
             .generate_user_secret_key(&mut msk, &pol)
@@ -305,6 +331,9 @@ pub fn check_case(focus: &str, case: &CoverCase, col: &Collector) -> CheckResult
             col.class("policy:enc-with-star-operand");
         }
         let (pol, _) = rp.to_policy().map_err(|e| Fail::new("generated-policy-rejected-by-parser", e))?;
+        if let Some(p2) = shadow_mpk.as_ref() {
+            let _ = cc.encaps(p2, &pol);
+        }
         let (s, enc) = cc
             .encaps(&mpk, &pol)
             .map_err(|e| Fail::new("encaps-failed-on-well-formed-policy", format!("{} on {}: {}", rp.describe(), spec.shape(), short_err(&e))))?;
@@ -618,13 +647,13 @@ pub fn run(ctx: &Ctx, col: &Collector) -> Meta {
     } else {
         &["c02:next-higher-level", "c02:sibling-attribute", "c02:all-but-one-dimension-shared"]
     };
-    for c in need.iter().chain(["policy:user-with-star-operand", "policy:enc-with-star-operand"].iter()) {
+    for c in need.iter().chain(["policy:user-with-star-operand", "policy:enc-with-star-operand", "cases-with-a-second-authority-on-the-instance"].iter()) {
         if col.class_count(c) == 0 && !col.stopped() {
             col.note(format!("generator unhealthy: class {c} empty"));
         }
     }
     let rule = if focus == "C01" {
-        "random structures (1-4 dimensions, hierarchies built by out-of-order `after` insertions, arbitrary hints, non-ASCII / inner-space names) with 2-5 user policies and 2-6 encryption policies (free, or derived from a user clause: same / lower attribute / extra unmentioned dimension / dropped dimension / one step outside), policies passed as ASTs, built with the `&` / `|` operators, or through the parser with random spacing and parentheses; one policy in five carries a `*` operand (`X && *`, `(D::a || *) && X`, `X || *`; built with the operators, `*` read as true); half of the structures then go through 1-5 edits (delete / add with `after` / rename / master-key round-trip / update) before any key exists, the name-level structure being edited in parallel; 2 cases in 7 use a master key with tracing level 2 or 3 (tracers appended through the serialized form); plus exhaustive tables on three fixed structures (all user DNFs with <= 2 clauses x all single-conjunction encryption policies). Oracle: name-level cover predicate. Non-trivial = authorized pair whose authorization uses a lower hierarchical attribute, an unmentioned dimension, a multi-clause user policy, a multi-target encapsulation, a hybridized target or >= 3 dimensions; distinct by (structure shape, user DNF, encryption DNF)"
+        "random structures (1-4 dimensions, hierarchies built by out-of-order `after` insertions, arbitrary hints, non-ASCII / inner-space names) with 2-5 user policies and 2-6 encryption policies (free, or derived from a user clause: same / lower attribute / extra unmentioned dimension / dropped dimension / one step outside), policies passed as ASTs, built with the `&` / `|` operators, or through the parser with random spacing and parentheses; in two cases out of three the instance also serves a second authority with the same names and shifted attribute ids, and every key generation / encapsulation is preceded by the same call for that authority; one policy in five carries a `*` operand (`X && *`, `(D::a || *) && X`, `X || *`; built with the operators, `*` read as true); half of the structures then go through 1-5 edits (delete / add with `after` / rename / master-key round-trip / update) before any key exists, the name-level structure being edited in parallel; 2 cases in 7 use a master key with tracing level 2 or 3 (tracers appended through the serialized form); plus exhaustive tables on three fixed structures (all user DNFs with <= 2 clauses x all single-conjunction encryption policies). Oracle: name-level cover predicate. Non-trivial = authorized pair whose authorization uses a lower hierarchical attribute, an unmentioned dimension, a multi-clause user policy, a multi-target encapsulation, a hybridized target or >= 3 dimensions; distinct by (structure shape, user DNF, encryption DNF)"
     } else {
         "same cases as C01 (one run yields both verdict kinds; this check reports the unauthorized half). Oracle: name-level cover predicate says no conjunction is covered => decaps must return None (Some(x) for any x is a violation). Non-trivial = unauthorized pair at distance one from authorization: exactly one attribute of a conjunction fails against some user clause (next higher level in a hierarchy, sibling in an anarchy), possibly sharing all other dimensions; distinct by (structure shape, user DNF, encryption DNF)"
     };
